@@ -127,7 +127,9 @@ class UpdateContextFromStatic(object):
         return self._context == other._context
 
     def _set_context(self, context):
-        self._context = context
+        # later SetContext elements change *context* in place,
+        # therefore keep a copy (as StoreContext does).
+        self._context = deepcopy(context)
 
     def run(self, flow):
         for val in flow:
